@@ -55,7 +55,8 @@ RULE = ("random tensors described four ways (direct constructor, from_blocks, fr
         "omitted optional arguments (charge, symmetry), wrong symmetry argument; dense arrays with unsorted, "
         "interleaved charge labels -> from_dense -> to_dense equals the projection onto charge-conserving positions "
         "reordered (stably) by charge; to_dense -> from_dense with matching labels is the identity. non-trivial: "
-        "unsorted labels or an omitted optional argument")
+        "unsorted labels or an omitted optional argument"
+        '; dict labellings with shuffled insertion order')
 ANCHORS = {"abelian_core.py": ["__init__", "get_class_symmetry", "from_fill_fn", "from_blocks", "from_dense",
                                "to_dense"],
            "fermionic_core.py": ["__init__", "oddpos_parse", "to_dense"]}
